@@ -99,9 +99,9 @@ HandleProblems(e, s, mrep, mfx, mnm) ==
        \o (IF none /\ ~(changed \subseteq allowed)
                THEN <<P("VIOL", "C05", "effect-without-privilege", [d EXCEPT !.changed = changed \ allowed])>> ELSE <<>>)
        \o (IF none /\ e.nrep > 1 THEN <<P("VIOL", "C05", "several-replies-to-refused-request", d)>> ELSE <<>>)
-       \o (IF all /\ isErr /\ ~refused /\ EffOf(r) # {} THEN <<P("DRIFT", "C05", "request failed for another reason", d)>> ELSE <<>>)
+       \o (IF all /\ isErr /\ ~refused /\ EffOf(r) # {} /\ r.sp # "occupied" THEN <<P("DRIFT", "C05", "request failed for another reason", d)>> ELSE <<>>)
        \o (IF all /\ e.reply = "closed" THEN <<P("DRIFT", "C05", "connection closed instead of a reply", d)>> ELSE <<>>)
-       \o (IF all /\ ~isErr /\ e.reply # "closed" /\ ~(expect \subseteq changed)
+       \o (IF all /\ ~isErr /\ e.reply # "closed" /\ r.sp # "occupied" /\ ~(expect \subseteq changed)
                THEN <<P("DRIFT", "C05", "expected effect not observed", [d EXCEPT !.changed = expect \ changed])>> ELSE <<>>)
        \o (IF (all /\ mrep # "ok") \/ (none /\ mrep # "refused")
                THEN <<P("DRIFT", "C05", "model and readings disagree", d)>> ELSE <<>>)
